@@ -67,10 +67,11 @@ class EphemerisImporter:
         current_ephemerides = self._importer_db.getData(query)
 
         # Ensure we have at least as many ephems as register import callbacks
-        if len(current_ephemerides) < len(self._registrants):
-            retrieved_ids = {ephem.agent_id for ephem in current_ephemerides}
-            registerd_ids = set(self._registrants.keys())
-            missing_ids = registerd_ids - retrieved_ids
+        # [NOTE]: compare the IDs, not the number of records: the importer database may also contain
+        #   ephemerides of agents that are not registered (e.g. realtime agents of a previous run).
+        retrieved_ids = {ephem.agent_id for ephem in current_ephemerides}
+        registerd_ids = set(self._registrants.keys())
+        if missing_ids := registerd_ids - retrieved_ids:
             msg = f"Missing ephemeris data for agents {missing_ids} at time {datetime_epoch.isoformat(timespec='microseconds')}"
             self._logger.error(msg)
             raise MissingEphemerisError(msg)
